@@ -324,6 +324,31 @@ theorem dialect_irrelevant_otherwise_select (x : Select) (h : anyS depAll x = fa
 theorem dialect_irrelevant_otherwise_query (q : Query) (h : anyQ depAll q = false) (d d' : Gen.D) : prQ d q = prQ d' q :=
   eq_Q (depAll_covers d d') q h
 
+/-- two dialects that answer all of the printer's query-level tests alike -/
+def sameClass (d d' : Gen.D) : Bool :=
+  modOk d == modOk d' && indexOk d == indexOk d' && hiveClausesOk d == hiveClausesOk d' && lateralOk d == lateralOk d'
+    && (d == .DB2) == (d' == .DB2)
+
+theorem depLoc_empty (d d' : Gen.D) (h : sameClass d d' = true) : (depLoc d d').Empty := by
+  simp only [sameClass, Bool.and_eq_true, beq_iff_eq] at h
+  obtain ⟨⟨⟨⟨h1, h2⟩, h3⟩, h4⟩, h5⟩ := h
+  refine ⟨fun x => ?_, fun x => ?_, fun _ => rfl, fun _ => rfl, fun _ => rfl⟩
+  · simp [depLoc, h1, h2, h5]
+  · simp [depLoc, h3, h4]
+
+/-- **C13.same_class_same_text**: the printer distinguishes only five classes of dialects on query trees —
+{MYSQL, SQL_SERVER}, {ORACLE, POSTGRE_SQL}, {DB2}, {HIVE}, {DEFAULT}: within a class EVERY query tree is printed
+identically (same text or same error). -/
+theorem same_class_same_text (d d' : Gen.D) (h : sameClass d d' = true) (q : Query) : prQ d q = prQ d' q :=
+  dialects_agree_query d d' q (none_Q (depLoc_empty d d' h) q)
+
+theorem mysql_sqlserver_agree (q : Query) : prQ .MYSQL q = prQ .SQL_SERVER q := same_class_same_text _ _ (by decide) q
+theorem oracle_postgres_agree (q : Query) : prQ .ORACLE q = prQ .POSTGRE_SQL q := same_class_same_text _ _ (by decide) q
+/-- the five classes are exactly the classes of `sameClass` -/
+theorem sameClass_classes : (Gen.allD.map fun d => Gen.allD.filter (sameClass d)) =
+    [[.MYSQL, .SQL_SERVER], [.HIVE], [.ORACLE, .POSTGRE_SQL], [.DB2], [.ORACLE, .POSTGRE_SQL], [.MYSQL, .SQL_SERVER], [.DEFAULT]] := by
+  decide
+
 /-! ### statements -/
 
 /-- the explicit column list of an INSERT contains a name DB2 respells -/
